@@ -528,6 +528,14 @@ var c02Statics = [][]string{
 	{`<p if true { title=a&amp;b } else { title=c&amp;d }>m</p>`, `<p title="a&amp;b">m</p>`},
 	{`<ul><li>1</li><li class="x y">2 &amp; 3</li></ul><br/><hr>`, `<ul><li>1</li><li class="x y">2 &amp; 3</li></ul><br><hr>`},
 	{`<div hidden data-flag>a <b>b</b> c</div>`, `<div hidden data-flag>a <b>b</b> c</div>`},
+	// a clause without a body is the clause selected for its values, and renders nothing
+	{"<li>\n\t\tswitch \"hidden\" {\n\t\t\tcase \"hidden\":\n\t\t\tcase \"shown\":\n\t\t\t\t<i>shown</i>\n\t\t\tdefault:\n\t\t\t\t<b>other</b>\n\t\t}\n\t</li>", "<li></li>"},
+	{"<span>\n\t\tswitch {\n\t\t\tcase 0 == 0:\n\t\t\tcase 0 < 10:\n\t\t\t\tfew\n\t\t\tdefault:\n\t\t\t\tmany\n\t\t}\n\t</span>", "<span></span>"},
+	// the first use of a css class / a script is inside the block of a call, the second after the call: one definition
+	{"@wrap(\"w\") {\n\t\t<p class={ grid() }>in</p>\n\t}\n\t<p class={ grid() }>out</p>",
+		"<section title=\"w\"><style type=\"text/css\">.grid_cbb91d13{grid-template-areas:\"head  head\" \"nav   main\";content:\"\\201C  \\201D\";font-family:\"A  B\",\tserif;}</style><p class=\"grid_cbb91d13\">in</p></section><p class=\"grid_cbb91d13\">out</p>"},
+	{"@wrap(\"w\") {\n\t\t<button onclick={ hello(\"a\") }>in</button>\n\t}\n\t<button onclick={ hello(\"a\") }>out</button>",
+		"<section title=\"w\"><script>function __templ_hello_e826(name){console.log(name);\n}</script><button onclick=\"__templ_hello_e826(&#34;a&#34;)\">in</button></section><button onclick=\"__templ_hello_e826(&#34;a&#34;)\">out</button>"},
 	{`<a href=/path >x</a>`, `<a href="/path">x</a>`, "unquoted-leading-slash"},
 	{`<a href=a/b data-x=1 >y</a>`, `<a href="a/b" data-x="1">y</a>`, "unquoted-inner-slash"},
 }
@@ -549,6 +557,10 @@ func c02Static(e *emitter, r *rng, scratch, root string) {
 		} else {
 			e.count("static-template-rejected")
 		}
+	}
+	if len(tmpls) > 0 {
+		// what the fixtures with calls, classes and scripts refer to
+		tmpls[len(tmpls)-1].src += "\ncss grid() {\n\tgrid-template-areas: \"head  head\" \"nav   main\";\n\tcontent: \"\\201C  \\201D\";\n\tfont-family: \"A  B\",\tserif;\n}\n\nscript hello(name string) {\n\tconsole.log(name);\n}\n\ntempl wrap(title string) {\n\t<section title={ title }>\n\t\t{ children... }\n\t</section>\n}\n"
 	}
 	c02RunBatchOp(e, r, scratch, root, "static", tmpls, 1, "static")
 }
